@@ -257,6 +257,11 @@ func (bqp *binaryQuantizedPoint) Id() uint64 {
 }
 
 func (bqp *binaryQuantizedPoint) IdFromKey(key []byte) (uint64, bool) {
+	// A point is stored under its quantised key once the quantiser has a
+	// threshold and under its full vector key before that.
+	if id, ok := conversion.NodeIdFromKey(key, 'q'); ok {
+		return id, true
+	}
 	return conversion.NodeIdFromKey(key, 'v')
 }
 
@@ -298,8 +303,10 @@ func (bqp *binaryQuantizedPoint) WriteTo(id uint64, bucket diskstore.Bucket) err
 		if err := bucket.Put(conversion.NodeKey(id, 'q'), conversion.EdgeListToBytes(bqp.BinaryVector)); err != nil {
 			return err
 		}
-		// We avoid writing the full vector if the quantised version exists.
-		return nil
+		// We avoid writing the full vector if the quantised version exists and
+		// drop a full vector written before the quantiser was fitted, so that
+		// exactly one key identifies the point.
+		return bucket.Delete(conversion.NodeKey(id, 'v'))
 	}
 	if len(bqp.Vector) != 0 {
 		if err := bucket.Put(conversion.NodeKey(id, 'v'), conversion.Float32ToBytes(bqp.Vector)); err != nil {
